@@ -12,6 +12,14 @@ use super::{
 
 /// Script Matching functions
 impl Interpreter {
+    /// Fails unless the stack holds at least `count` items.
+    fn require_items(stack: &[Vec<u8>], count: usize) -> Result<(), InterpreterError> {
+        match stack.len() >= count {
+            true => Ok(()),
+            false => Err(InterpreterError::InvalidStackOperation("Not enough items on the stack")),
+        }
+    }
+
     fn verify(boolean: bool) -> Result<(), InterpreterError> {
         match boolean {
             true => Ok(()),
@@ -116,13 +124,10 @@ impl Interpreter {
                 state.stack.push_bytes(a);
             }
             OpCodes::OP_IFDUP => {
-                let predicate = state.stack.pop_bool()?;
+                // Duplicates the top item if it is true; the item itself stays on the stack
+                let top_data = state.stack.last().cloned().ok_or(InterpreterError::EmptyStack)?;
+                let predicate = vec![top_data.clone()].pop_bool()?;
                 if predicate {
-                    let top_data = match state.stack.last().cloned() {
-                        Some(v) => v,
-                        None => return Err(InterpreterError::EmptyStack),
-                    };
-
                     state.stack.push(top_data);
                 }
             }
@@ -142,65 +147,85 @@ impl Interpreter {
                 state.stack.push(top_data);
             }
             OpCodes::OP_NIP => {
+                // x1 x2 -> x2
+                Interpreter::require_items(&state.stack, 2)?;
                 state.stack.remove(state.stack.len() - 2);
             }
             OpCodes::OP_OVER => {
-                let index = state.stack.len() - 2;
-                let second_last = state.stack.get(index).cloned().ok_or(InterpreterError::NumberOutOfRange)?;
+                // x1 x2 -> x1 x2 x1
+                Interpreter::require_items(&state.stack, 2)?;
+                let second_last = state.stack[state.stack.len() - 2].clone();
                 state.stack.push_bytes(second_last);
             }
             OpCodes::OP_PICK => {
+                // xn ... x0 n -> xn ... x0 xn
+                Interpreter::require_items(&state.stack, 2)?;
                 let index = state.stack.pop_number()?;
-                let selected_item = state.stack.get((state.stack.len() - 1) - index as usize).cloned().ok_or(InterpreterError::NumberOutOfRange)?;
+                if index < 0 || index as usize >= state.stack.len() {
+                    return Err(InterpreterError::NumberOutOfRange);
+                }
+                let selected_item = state.stack[(state.stack.len() - 1) - index as usize].clone();
                 state.stack.push_bytes(selected_item);
             }
             OpCodes::OP_ROLL => {
+                // xn ... x0 n -> ... x0 xn
+                Interpreter::require_items(&state.stack, 2)?;
                 let index = state.stack.pop_number()?;
+                if index < 0 || index as usize >= state.stack.len() {
+                    return Err(InterpreterError::NumberOutOfRange);
+                }
                 let selected_item = state.stack.remove((state.stack.len() - 1) - index as usize);
                 state.stack.push_bytes(selected_item);
             }
             OpCodes::OP_ROT => {
+                // x1 x2 x3 -> x2 x3 x1
+                Interpreter::require_items(&state.stack, 3)?;
                 let len = state.stack.len();
                 let third = state.stack.remove(len - 3);
 
                 state.stack.push_bytes(third);
             }
             OpCodes::OP_SWAP => {
+                // x1 x2 -> x2 x1
+                Interpreter::require_items(&state.stack, 2)?;
                 let len = state.stack.len();
                 state.stack.swap(len - 1, len - 2);
             }
             OpCodes::OP_TUCK => {
-                let selected_item = state.stack.last().cloned().ok_or(InterpreterError::NumberOutOfRange)?;
+                // x1 x2 -> x2 x1 x2
+                Interpreter::require_items(&state.stack, 2)?;
+                let selected_item = state.stack[state.stack.len() - 1].clone();
                 state.stack.insert(state.stack.len() - 2, selected_item);
             }
             OpCodes::OP_2DROP => {
+                Interpreter::require_items(&state.stack, 2)?;
                 state.stack.pop_bytes()?;
                 state.stack.pop_bytes()?;
             }
             OpCodes::OP_2DUP => {
-                let first = state.stack.last().cloned().ok_or(InterpreterError::NumberOutOfRange)?;
-                let second = state.stack.get(state.stack.len() - 2).cloned().ok_or(InterpreterError::NumberOutOfRange)?;
-
-                state.stack.push_bytes(first);
-                state.stack.push_bytes(second);
+                // x1 x2 -> x1 x2 x1 x2
+                Interpreter::require_items(&state.stack, 2)?;
+                let len = state.stack.len();
+                let pair = state.stack[len - 2..].to_vec();
+                state.stack.extend(pair);
             }
             OpCodes::OP_3DUP => {
-                let first = state.stack.last().cloned().ok_or(InterpreterError::NumberOutOfRange)?;
-                let second = state.stack.get(state.stack.len() - 2).cloned().ok_or(InterpreterError::NumberOutOfRange)?;
-                let third = state.stack.get(state.stack.len() - 3).cloned().ok_or(InterpreterError::NumberOutOfRange)?;
-
-                state.stack.push_bytes(first);
-                state.stack.push_bytes(second);
-                state.stack.push_bytes(third);
+                // x1 x2 x3 -> x1 x2 x3 x1 x2 x3
+                Interpreter::require_items(&state.stack, 3)?;
+                let len = state.stack.len();
+                let triple = state.stack[len - 3..].to_vec();
+                state.stack.extend(triple);
             }
             OpCodes::OP_2OVER => {
+                // x1 x2 x3 x4 -> x1 x2 x3 x4 x1 x2
+                Interpreter::require_items(&state.stack, 4)?;
                 let len = state.stack.len();
-                let third = state.stack[len - 3].clone();
-                let fourth = state.stack[len - 4].clone();
-                state.stack.push_bytes(fourth);
-                state.stack.push_bytes(third);
+                let pair = state.stack[len - 4..len - 2].to_vec();
+                state.stack.extend(pair);
             }
             OpCodes::OP_2ROT => {
+                // x1 x2 x3 x4 x5 x6 -> x3 x4 x5 x6 x1 x2
+                Interpreter::require_items(&state.stack, 6)?;
                 let index = state.stack.len() - 6;
                 let sixth = state.stack.remove(index);
                 let fifth = state.stack.remove(index);
@@ -209,13 +234,12 @@ impl Interpreter {
             }
 
             OpCodes::OP_2SWAP => {
-                let x1 = state.stack.pop_bytes()?;
-                let x2 = state.stack.pop_bytes()?;
-                let x3 = state.stack.pop_bytes()?;
-                let x4 = state.stack.pop_bytes()?;
+                // x1 x2 x3 x4 -> x3 x4 x1 x2
+                Interpreter::require_items(&state.stack, 4)?;
+                let index = state.stack.len() - 4;
+                let x1 = state.stack.remove(index);
+                let x2 = state.stack.remove(index);
 
-                state.stack.push_bytes(x3);
-                state.stack.push_bytes(x4);
                 state.stack.push_bytes(x1);
                 state.stack.push_bytes(x2)
             }
@@ -237,7 +261,7 @@ impl Interpreter {
             }
 
             OpCodes::OP_SIZE => {
-                let len = state.stack.last().unwrap().len();
+                let len = state.stack.last().ok_or(InterpreterError::EmptyStack)?.len();
                 state.stack.push_number(len as i64)?;
             }
             OpCodes::OP_INVERT => {
